@@ -8,7 +8,8 @@ WT=/tmp/vseed/$NAME
 rm -rf "$WT"; git -C /repo worktree prune; git -C /repo worktree add -f "$WT" HEAD -q || exit 3
 cd "$WT"
 res_apply=fail; res_build=fail; res_tests=""; res_demo_mut=""; res_demo_orig=""
-if git apply --check "$OUT/patch.diff" 2>/dev/null && git apply "$OUT/patch.diff"; then res_apply=ok; fi
+PATCH="$OUT/patch.diff"; [ -f "$OUT/patch_fixed_tree.diff" ] && PATCH="$OUT/patch_fixed_tree.diff"
+if git apply --check "$PATCH" 2>/dev/null && git apply "$PATCH"; then res_apply=ok; fi
 if [ $res_apply = ok ]; then
   cmake -G Ninja -B _build -DCMAKE_BUILD_TYPE=RelWithDebInfo -DCMAKE_CXX_FLAGS=-Wno-error -DBUILD_DATA_TESTS=ON >/dev/null 2>&1
   if cmake --build _build -j${JOBS:-8} >/dev/null 2>&1; then res_build=ok; fi
